@@ -499,6 +499,18 @@ func genFrameRanges(r *Rand, n int, thorough, multi bool, emit func(string)) {
 			}
 			c := cands[r.Intn(len(cands))]
 			emit(fsOp(r, c[0], c[1]))
+			// steps next to the largest int (one frame), and short ranges of 19-digit negatives
+			more := [][2]string{
+				{"1-10x" + hi, "c:1:10:x:" + hi},
+				{"5-1x" + hi, "c:5:1:x:" + hi},
+				{"3-12x9223372036854775806", "c:3:12:x:9223372036854775806"},
+				{"1-2x" + hi + ",7", "c:1:2:x:" + hi + "/s:7"},
+				{lo + "--9223372036854775806", "r:" + lo + ":-9223372036854775806"},
+				{"-1000000000000000005--1000000000000000001", "r:-1000000000000000005:-1000000000000000001"},
+				{"-1000000000000000001,-1000000000000000003,-1000000000000000005", "s:-1000000000000000001/s:-1000000000000000003/s:-1000000000000000005"},
+			}
+			c = more[r.Intn(len(more))]
+			emit(fsOp(r, c[0], c[1]))
 			continue
 		}
 		if i%89 == 23 {
